@@ -57,6 +57,7 @@ def Err.name : Err → String
 def Warn.name : Warn → String
   | .storyNotFound => "StoryNotFoundWarning" | .itemNotFound => "ItemNotFoundWarning"
   | .duplicateStory => "DuplicateStoryWarning" | .nonStrict => "MosMergeNonStrictWarning"
+  | .other => "MosRoMgrWarning(other category)"
 
 def Kind.name : Kind → String
   | .RunningOrder => "RunningOrder" | .StorySend => "StorySend" | .StoryAppend => "StoryAppend"
@@ -97,7 +98,7 @@ def warnOfString : String → Except String Warn
   | "ItemNotFoundWarning" => pure .itemNotFound
   | "DuplicateStoryWarning" => pure .duplicateStory
   | "MosMergeNonStrictWarning" => pure .nonStrict
-  | s => throw s!"warn {s}"
+  | _ => pure .other        -- a category the library does not document: an observation, not a protocol error
 
 def resJ (r : Res) : Json :=
   Json.mkObj [("err", errJ r.err), ("warns", toJson (r.warns.map Warn.name)), ("ro", xmlToJson r.ro)]
